@@ -690,6 +690,8 @@ class Fn:
                         if x and ('mem_' + x) not in out:
                             out.append('mem_' + x)
                 ext = (self.tr.externs or {}).get(cal.get('referencedDecl', {}).get('name')) if cal.get('kind') == 'DeclRefExpr' else None
+                if ext and 'alts' in ext:
+                    ext = self.pick_ext(cal['referencedDecl']['name'], n['inner'][1:])
                 if ext:
                     for i in ext.get('writes', ()):
                         x = root_of(n['inner'][1 + i])
@@ -707,7 +709,7 @@ class Fn:
                     walk(c)
         for s in stmts:
             walk(s)
-        return out
+        return [x for x in out if not (x.startswith('mem_') and x[4:] in declared)]
 
     def has(self, stmts, kinds):
         def walk(n):
@@ -715,6 +717,20 @@ class Fn:
                 return True
             return any(isinstance(c, dict) and walk(c) for c in n.get('inner', []))
         return any(walk(s) for s in stmts)
+
+    def local_mats(self, body):
+        """names of struct pointer locals that get their own memory (mzd_init / fresh result of an extern)"""
+        out = []
+
+        def walk(n):
+            if n.get('kind') == 'VarDecl' and kind_of(n['type']['qualType']) == 'p:?' and n['name'] not in self.malias_pre \
+               and n['name'] not in self.salias_pre:
+                out.append(n['name'])
+            for c in n.get('inner', []):
+                if isinstance(c, dict):
+                    walk(c)
+        walk(body)
+        return out
 
     def has_own(self, stmts, kind):
         """does `stmts` contain a statement of `kind` that belongs to this loop (not to a nested loop / switch)?"""
@@ -859,6 +875,9 @@ class Fn:
                 if dk == 'p:?' and init and nm in self.malias_pre:
                     out += self.decl_window(nm, init[0], pad)
                     continue
+                if dk == 'p:?' and init and self.fresh_matrix(nm, init[0]) is not None:
+                    out += self.fresh_matrix(nm, init[0], pad, emit=True)
+                    continue
                 if dk == 'p:?' and init and nm in self.salias_pre:
                     c0 = strip(init[0])
                     a = strip(c0['inner'][1])
@@ -894,6 +913,13 @@ class Fn:
                     e = self.lit(0, dk)      # uninitialised in C; reading it before a write would be undefined
                 out += '%slet %s : %s := %s\n' % (pad, V(nm), LTYPE[dk], e)
             return out + self.seq(rest, k_final, ind)
+        if k == 'BinaryOperator' and s.get('opcode') == '=' and strip(s['inner'][0]).get('kind') == 'DeclRefExpr' and \
+           (kind_of(qt(strip(s['inner'][0]))) or '') == 'p:?':
+            nm_ = strip(s['inner'][0])['referencedDecl']['name']
+            if (nm_ not in self.malias or self.malias[nm_][0] == nm_) and strip(s['inner'][0])['referencedDecl'].get('kind') == 'VarDecl' \
+               and self.fresh_matrix(nm_, s['inner'][1]) is not None:
+                return self.fresh_matrix(nm_, s['inner'][1], pad, emit=True) + self.seq(rest, k_final, ind)
+            raise CTransError('%s: assignment to the struct pointer %s' % (self.name, nm_))
         self.pending = []
         a = self.assign_stmt(s) if k in ('BinaryOperator', 'CompoundAssignOperator', 'UnaryOperator') and s.get('opcode') != ',' else None
         if a:
@@ -928,6 +954,9 @@ class Fn:
         if k == 'ReturnStmt' and self.sbuild and s.get('inner') and strip(s['inner'][0]).get('kind') == 'DeclRefExpr' and \
            strip(s['inner'][0])['referencedDecl']['name'] == self.sbuild:
             return pad + '(' + ', '.join(V('fld_' + f) for f in self.sfields) + ')'
+        if k == 'ReturnStmt' and self.void_outs is not None and s.get('inner') and not self.loops and \
+           (kind_of(qt(strip(s['inner'][0]))) or '') == 'p:?':
+            return pad + self.tup(self.void_outs)        # `return C;` of a function that returns its destination parameter
         if k == 'ReturnStmt':
             inner = s.get('inner', [])
             if not inner:
@@ -1046,11 +1075,44 @@ class Fn:
                 for y, t_ in tmp:
                     out += self.writeback(y, t_, pad)
                 return out + self.seq(rest, k_final, ind)
-            ext = (self.tr.externs or {}).get(fname)
+            ext = self.pick_ext(fname, s['inner'][1:]) if fname in (self.tr.externs or {}) else None
             if ext is not None:
                 return self.extern_call(fname, ext, s['inner'][1:], None, pad) + self.seq(rest, k_final, ind)
             raise CTransError('%s: call statement %s outside the translated subset' % (self.name, fname))
         raise CTransError('%s: unsupported statement kind %s' % (self.name, k))
+
+    def fresh_matrix(self, nm, init, pad='', emit=False):
+        """`mzd_t *X = mzd_init(r, c)` (a zeroed r x c matrix: TRUSTED semantics of mzd_init) or `mzd_t *X = f(...)` for an
+        untranslated f that returns a freshly allocated matrix (extern description `ret='mat'`): X gets its own local memory
+        and local header fields"""
+        c0 = strip(init)
+        while c0.get('kind') in ('CStyleCastExpr', 'ImplicitCastExpr'):
+            c0 = strip(c0['inner'][0])
+        if c0.get('kind') != 'CallExpr':
+            return None
+        fname = strip(c0['inner'][0]).get('referencedDecl', {}).get('name')
+        ext = self.pick_ext(fname, c0['inner'][1:]) if fname in (self.tr.externs or {}) else None
+        if fname != 'mzd_init' and not (ext and ext.get('ret') == 'mat'):
+            return None
+        if not emit:
+            return ''
+        mem = 'mem_' + nm
+        self.locals[mem] = 'm2'
+        if fname == 'mzd_init':
+            r_, c_ = self.value(c0['inner'][1]), self.value(c0['inner'][2])
+            out = '%slet %s : %s := (fun _ _ => (0#64))\n' % (pad, V(mem), LTYPE['m2'])
+            out += '%slet %s_nrows : Int := %s\n%slet %s_ncols : Int := %s\n' % (pad, V(nm), r_, pad, V(nm), c_)
+        else:
+            out = self.extern_call(fname, ext, c0['inner'][1:], None, pad, fresh=nm)
+        out += '%slet %s_width : Int := (Int.tdiv (%s_ncols + (63 : Int)) (64 : Int))\n' % (pad, V(nm), V(nm))
+        out += '%slet %s_high_bitmask : BitVec 64 := ((BitVec.allOnes 64) >>> ((Int.tmod ((64 : Int) - (Int.tmod %s_ncols (64 : Int))) (64 : Int))).toNat)\n' % (pad, V(nm), V(nm))
+        # the remaining header fields as mzd_init sets them (TRUSTED: mzd_init itself is not translated)
+        out += '%slet %s_rowstride : Int := (if (CLoop.iand %s_width (1 : Int)) = (0 : Int) then %s_width else %s_width + (1 : Int))\n' % (pad, V(nm), V(nm), V(nm), V(nm))
+        out += '%slet %s_flags : BitVec 8 := (if %s_high_bitmask ≠ (BitVec.allOnes 64) then (2#8) else (0#8))\n' % (pad, V(nm), V(nm))
+        self.malias[nm] = (nm, '(0 : Int)', '(0 : Int)')
+        for f_, k_ in (('nrows', 'i'), ('ncols', 'i'), ('width', 'i'), ('high_bitmask', 'w'), ('rowstride', 'i'), ('flags', 'c')):
+            self.locals['%s_%s' % (nm, f_)] = k_
+        return out
 
     def writeback(self, y, resname, pad):
         """bind the memory a callee returned for its matrix argument `y` to the caller's root memory"""
@@ -1064,7 +1126,23 @@ class Fn:
         return '%slet %s : %s := (CLoop.unview %s %s %s %s %s %s)\n' % (
             pad, V(mem), LTYPE['m2'], V(mem), r0, w0, V('%s_nrows' % y), V('%s_width' % y), resname)
 
-    def extern_call(self, fname, ext, argnodes, result_var, pad):
+    def pick_ext(self, fname, argnodes):
+        ext = (self.tr.externs or {}).get(fname)
+        if ext is None or 'alts' not in ext:
+            return ext
+
+        def is_null(an):
+            a_ = strip(an)
+            while a_.get('kind') in ('CStyleCastExpr', 'ImplicitCastExpr', 'ParenExpr'):
+                a_ = strip(a_['inner'][0])
+            return a_.get('kind') == 'IntegerLiteral' and a_.get('value') == '0'
+        for alt in ext['alts']:
+            if all(is_null(argnodes[i]) for i in alt.get('null', ())) and not any(is_null(argnodes[i]) for i in alt.get('mats', ())):
+                return alt
+        raise CTransError('%s: no alternative of %s matches the call' % (self.name, fname))
+
+    def extern_call(self, fname, ext, argnodes, result_var, pad, fresh=None):
+        ext = self.pick_ext(fname, argnodes) if 'alts' in ext else ext
         """a call of a function that is NOT translated: it becomes an application of the function parameter `f_<name>`;
         matrix arguments are passed as `CLoop.MView`s, permutations as their `values` array, scalars as they are; the
         parameter returns (its C return value, if any, then) the new memory of every matrix argument listed under
@@ -1073,6 +1151,13 @@ class Fn:
         tys = []
         for i, an in enumerate(argnodes):
             k_ = kind_of(qt(strip(an))) or ''
+            if i in ext.get('null', ()):
+                a_ = strip(an)
+                while a_.get('kind') in ('CStyleCastExpr', 'ImplicitCastExpr', 'ParenExpr'):
+                    a_ = strip(a_['inner'][0])
+                if a_.get('kind') != 'IntegerLiteral' or a_.get('value') != '0':
+                    raise CTransError('%s: argument %d of %s is expected to be NULL' % (self.name, i, fname))
+                continue
             if i in ext.get('mats', ()):
                 args.append(self.mview(self.struct_arg_name(an)))
                 tys.append('CLoop.MView')
@@ -1089,13 +1174,19 @@ class Fn:
                 args.append(self.value(an))
                 tys.append(LTYPE[self.expr_kind(strip(an))])
         rets = []
-        if ext.get('ret'):
+        if ext.get('ret') == 'mat':
+            rets += ['(%s)' % LTYPE['m2'], 'Int', 'Int']
+        elif ext.get('ret'):
             rets.append(LTYPE[ext['ret']])
         rets += ['(%s)' % LTYPE['m2']] * len(ext.get('writes', ())) + ['(Int → Int)'] * len(ext.get('pwrites', ()))
         fty = ' → '.join(tys + [' × '.join(rets)])
-        fparam = self.free('f_' + fname, 'fn:' + fty, ('extern', fname))
+        fparam = self.free('f_' + fname + ext.get('suffix', ''), 'fn:' + fty, ('extern', fname + ext.get('suffix', '')))
         names = []
-        if ext.get('ret'):
+        if ext.get('ret') == 'mat':
+            if not fresh:
+                raise CTransError('%s: the matrix returned by %s is dropped' % (self.name, fname))
+            names += [V('mem_' + fresh), V(fresh + '_nrows'), V(fresh + '_ncols')]
+        elif ext.get('ret'):
             names.append(result_var or 'cret__')
         wn = ['cres%d__%d' % (self.loop_no, j_) for j_ in range(len(ext.get('writes', ())))]
         pn = ['cperm%d__%d' % (self.loop_no, j_) for j_ in range(len(ext.get('pwrites', ())))]
@@ -1510,7 +1601,7 @@ class Translator:
            not re.search(r'static\s+uint8_t\s+const\s+mzd_flag_windowed\s*=\s*0x4\s*;', mzdh):
             raise CTransError('mzd.h: the flag constants are no longer 0x2 / 0x4')
 
-    def function(self, cfile, cname, lname, fuels=(), slice_=None, doc='', nosse=False, outparams=None, mem1=None, builder=False, externs=None):
+    def function(self, cfile, cname, lname, fuels=(), slice_=None, doc='', nosse=False, outparams=None, mem1=None, builder=False, externs=None, retparam=None):
         for i, f in enumerate(fuels):
             self.fuels[(cname if not slice_ else lname, i + 1)] = f
         ast = clang_ast(self.tu_dir if not nosse else self.tu_dir_nosse, cfile, cname, sse=not nosse)
@@ -1547,8 +1638,9 @@ class Translator:
             rt = ast['type']['qualType'].split('(')[0].strip()
             fn.prepass(body)
             stmts = list(body.get('inner', []))
-            if rt == 'void':
-                outs = [x for x in fn.assigned(stmts) if x.startswith('mem_') or x.startswith('mem1_')]
+            if rt == 'void' or retparam:
+                outs = [x for x in fn.assigned(stmts) if (x.startswith('mem_') or x.startswith('mem1_')) and
+                        not any(x == 'mem_' + l_ for l_ in fn.local_mats(body))]
                 if not outs:
                     raise CTransError('%s: void function that writes no modelled memory' % cname)
                 fn.void_outs = outs
@@ -1802,6 +1894,18 @@ def catalogue(t):
       doc='the permutation bookkeeping after the second recursive call: P2 += r1, Q2 += n1, Q[r1..r1+r2) = Q[n1..n1+r2) (P2, Q2 are windows of P, Q)')
     AM = dict(mats=(0, 1, 2), writes=(0,))
     T2 = dict(mats=(0, 1), writes=(1,))
+    F('m4ri/mzd.c', 'mzd_is_windowed', 'mzdIsWindowed')
+    COPY = dict(alts=[dict(null=(0,), mats=(1,), ret='mat', suffix='_new'), dict(mats=(0, 1), writes=(0,))])
+    MULNEW = dict(alts=[dict(null=(0,), mats=(1, 2), ret='mat', suffix='_new'), dict(mats=(0, 1, 2), writes=(0,))])
+    for (cfn, lfn) in (('_mzd_mul_even', 'strassenMulEven'), ('_mzd_addmul_even', 'strassenAddmulEven'),
+                       ('_mzd_sqr_even', 'strassenSqrEven'), ('_mzd_addsqr_even', 'strassenAddsqrEven')):
+        ext = {'mzd_copy': COPY, 'mzd_mul': MULNEW, '_mzd_add': AM, '_mzd_mul_m4rm': AM, '_mzd_addmul_m4rm': AM,
+               'mzd_addmul_m4rm': AM, 'mzd_addmul': AM, '_mzd_mul_even': AM, '_mzd_addmul_even': AM,
+               '_mzd_sqr_even': dict(mats=(0, 1), writes=(0,)), '_mzd_addsqr_even': dict(mats=(0, 1), writes=(0,)),
+               '_mzd_addmul': AM, 'mzd_mul_m4rm': AM}
+        F('m4ri/strassen.c', cfn, lfn, externs=ext, retparam='C', fuels=['64'],
+          doc='Strassen-Winograd step: base-case test, split, Bodrato sequence on 12 windows and 2 temporaries, remainder '
+              'strips; the recursive calls, the additions and the Four-Russians products are function parameters')
     for (cfn, lfn, base_, mid_) in (('_mzd_trsm_upper_right', 'trsmUpperRightRec', '_mzd_trsm_upper_right_base', '_mzd_trsm_upper_right_trtri'),
                                     ('_mzd_trsm_lower_right', 'trsmLowerRightRec', '_mzd_trsm_lower_right_base', None),
                                     ('_mzd_trsm_lower_left', 'trsmLowerLeftRec', None, '_mzd_trsm_lower_left_russian'),
